@@ -107,6 +107,13 @@ SETTERS = {
     "beta.scale": (lambda: gpytorch.likelihoods.BetaLikelihood(), "scale", (1,), 0.0),
     "index.var": (lambda: K.IndexKernel(num_tasks=2, rank=1), "var", (2,), 0.0),
     "arc.radius": (lambda: K.ArcKernel(K.RBFKernel()), "radius", (1, 1), 0.0),
+    "newton_girard.outputscale": (lambda: K.NewtonGirardAdditiveKernel(K.RBFKernel(), num_dims=2), "outputscale", (2,), 0.0),
+    "cylindrical.alpha": (lambda: K.CylindricalKernel(num_angular_weights=2, radial_base_kernel=K.RBFKernel()), "alpha", (1,), 0.0),
+    "cylindrical.angular_weights": (lambda: K.CylindricalKernel(num_angular_weights=2, radial_base_kernel=K.RBFKernel()), "angular_weights", (2,), 0.0),
+    "spectral_mixture.mixture_scales": (lambda: K.SpectralMixtureKernel(num_mixtures=2, ard_num_dims=1), "mixture_scales", (2, 1, 1), 0.0),
+    "spectral_mixture.mixture_weights": (lambda: K.SpectralMixtureKernel(num_mixtures=2, ard_num_dims=1), "mixture_weights", (2,), 0.0),
+    "multitask.noise": (lambda: gpytorch.likelihoods.MultitaskGaussianLikelihood(num_tasks=2), "noise", (1,), 1e-4),
+    "studentt.noise": (lambda: gpytorch.likelihoods.StudentTLikelihood(), "noise", (1,), 0.0),
 }
 
 
